@@ -295,6 +295,17 @@ def corpus(fam, quick):
             out.append(('content-length=%r' % ln, {'CONTENT_LENGTH': ln}, good))
         for ct in ('', 'zz', 'multipart/related', 'multipart/related; boundary=x', 'text/xml;;;', ';'):
             out.append(('content-type=%r' % ct, {'CONTENT_TYPE': ct}, good))
+        if fam.kind == 'xml':
+            # SOAP with attachments: the (valid) request as the single root part of a multipart/related body - with and without
+            # a charset on the transport, an XML declaration in the part, an attachment nobody refers to, parts cut short
+            for label, part, tail in [('root', good, b''), ('root+decl', b"<?xml version='1.0' encoding='utf-8'?>" + good, b''),
+                                      ('root+attachment', good, b'--BB\r\nContent-Type: application/octet-stream\r\nContent-ID: <a1>\r\n\r\nxyz\r\n'),
+                                      ('root+decl+attachment', b"<?xml version='1.0' encoding='utf-8'?>" + good,
+                                       b'--BB\r\nContent-Type: application/octet-stream\r\nContent-ID: <a1>\r\n\r\nxyz\r\n'),
+                                      ('no-end', good, None)]:
+                mp = b'--BB\r\nContent-Type: text/xml; charset=utf-8\r\nContent-ID: <root>\r\n\r\n' + part + b'\r\n' + (tail or b'') + (b'--BB--\r\n' if tail is not None else b'')
+                for cs in ('', '; charset=utf-8', '; charset=bogus', '; type="text/xml"; start="<root>"'):
+                    out.append(('swa %s%s' % (label, cs), {'CONTENT_TYPE': 'multipart/related; boundary=BB' + cs}, mp))
         # nesting beyond any interpreter stack
         for n in (1000, 100000):
             if n > 1000 and fam.name.startswith('yaml'):
